@@ -42,6 +42,9 @@ type Comp struct {
 type Time struct {
 	UTC string `json:"utc,omitempty"`
 	Loc string `json:"loc,omitempty"`
+	// Nanos: the sub-second part of the instant (a time.Time argument need
+	// not be a whole second)
+	Nanos int `json:"nanos,omitempty"`
 }
 
 // TextMatch mirrors caldav.TextMatch.
@@ -116,11 +119,11 @@ func (t Time) goTime() time.Time {
 		}
 		v = v.In(l)
 	}
-	return v
+	return v.Add(time.Duration(t.Nanos))
 }
 
 func mkTime(v time.Time, loc string) Time {
-	return Time{UTC: v.UTC().Format(utcLayout), Loc: loc}
+	return Time{UTC: v.UTC().Format(utcLayout), Loc: loc, Nanos: v.Nanosecond()}
 }
 
 // --- builders for the library side -----------------------------------------
